@@ -13,12 +13,14 @@ BOUNDS = {"quick": [dict(K=3, obs=1, pre=2, to=1), dict(K=2, obs=2, pre=1, to=1,
                     dict(K=3, obs=1, pre=1, to=1, log=True, printer=True), dict(K=3, obs=1, pre=2, to=1, onstart=True, flags=(True, False)),
                     dict(K=4, obs=1, pre=1, to=1, flags=(False, True)),
                     dict(K=3, obs=1, pre=1, to=1, spw=2), dict(K=3, obs=1, pre=1, to=1, nojoin=True),
-                    dict(K=70, obs=1, pre=0, to=1, loud=True), dict(K=260, obs=1, pre=0, to=1, loud=True)],
+                    dict(K=70, obs=1, pre=0, to=1, loud=True), dict(K=260, obs=1, pre=0, to=1, loud=True),
+                    dict(K=2, obs=1, pre=1, to=1, bad=True), dict(K=3, obs=1, pre=1, to=1, manual=True, onstart=True)],
           "thorough": [dict(K=6, obs=1, pre=2, to=2), dict(K=3, obs=2, pre=2, to=1, log=True), dict(K=5, obs=1, pre=3, to=1), dict(K=2, obs=3, pre=1, to=0), dict(K=3, obs=3, pre=0, to=1),
                        dict(K=7, obs=1, pre=1, to=1, log=True), dict(K=3, obs=1, pre=2, to=1, log=True, printer=True),
                        dict(K=4, obs=1, pre=2, to=1, onstart=True, flags=(True, False)), dict(K=5, obs=1, pre=1, to=1, flags=(False, True)),
                        dict(K=4, obs=1, pre=2, to=1, spw=2), dict(K=3, obs=2, pre=1, to=1, spw=2), dict(K=4, obs=1, pre=2, to=1, nojoin=True), dict(K=2, obs=2, pre=1, to=1, nojoin=True),
-                       dict(K=70, obs=2, pre=0, to=1, loud=True), dict(K=100, obs=1, pre=1, to=0, loud=True), dict(K=600, obs=1, pre=0, to=1, loud=True)]}
+                       dict(K=70, obs=2, pre=0, to=1, loud=True), dict(K=100, obs=1, pre=1, to=0, loud=True), dict(K=600, obs=1, pre=0, to=1, loud=True),
+                       dict(K=2, obs=2, pre=2, to=1, bad=True), dict(K=4, obs=1, pre=2, to=1, manual=True, onstart=True), dict(K=3, obs=2, pre=1, to=1, manual=True, onstart=True)]}
 
 
 class RecLogger:
@@ -49,9 +51,15 @@ def audio_and_kw(K, flags, spw, loud=False):
     return data, skw
 
 
-def run_main(s, tw, allobs, obs, nojoin):
+def run_main(s, tw, allobs, obs, nojoin, manual=False):
     """what the main thread does after building the workers"""
-    tw.start_all()
+    if manual:
+        # workers are threads: started one by one, the tokenizer first
+        tw.start()
+        for o in allobs:
+            o.start()
+    else:
+        tw.start_all()
     killed = []
     if nojoin:
         killed = s.interpreter_exit()
@@ -63,7 +71,7 @@ def run_main(s, tw, allobs, obs, nojoin):
             all(t.finished for t in s.threads), killed)
 
 
-def harness(L, K, nobs, max_pre, max_to, log=False, printer=False, onstart=False, flags=(False, False), spw=1, nojoin=False, loud=False):
+def harness(L, K, nobs, max_pre, max_to, log=False, printer=False, onstart=False, flags=(False, False), spw=1, nojoin=False, loud=False, bad=False, manual=False):
     W, core, util = L.modules["workers"], L.modules["core"], L.modules["util"]
     Obs = thr.make_observer_class(W)
     data, skw = audio_and_kw(K, flags, spw, loud)
@@ -73,7 +81,11 @@ def harness(L, K, nobs, max_pre, max_to, log=False, printer=False, onstart=False
         s.yield_on_start = onstart
         s.max_steps = max(s.max_steps, 60 * K)
         val = (lambda frame: True) if loud else thr.window_validator(data, spw)
-        meta = dict(K=K, obs=nobs, pre=max_pre, to=max_to, log=log, printer=printer, onstart=onstart, flags=list(flags), spw=spw, nojoin=nojoin, loud=loud)
+        meta = dict(K=K, obs=nobs, pre=max_pre, to=max_to, log=log, printer=printer, onstart=onstart, flags=list(flags), spw=spw, nojoin=nojoin, loud=loud, bad=bad, manual=manual)
+        if bad:
+            skw_ = dict(skw, min_dur=skw["max_dur"] * 2)      # min_dur > max_dur: not a valid parameter set
+        else:
+            skw_ = skw
         e.on_budget = lambda m: mk(m, meta, s)
         outcome = None
         obs = []
@@ -85,13 +97,27 @@ def harness(L, K, nobs, max_pre, max_to, log=False, printer=False, onstart=False
             if printer:
                 W.print = lambda *a, **k: printed.append(" ".join(str(x) for x in a))
                 allobs.append(W.PrintWorker("{id} {start} {end}", "%S"))
-            tw = W.TokenizerWorker(reader, allobs, logger=RecLogger() if log else None, validator=val, **skw)
-            s.private.add(id(tw._inbox))
-            outcome = run_main(s, tw, allobs, obs, nojoin)
+            try:
+                tw = W.TokenizerWorker(reader, allobs, logger=RecLogger() if log else None, validator=val, **skw_)
+            except ValueError:
+                tw = None
+            if tw is None:
+                outcome = ("rejected",)
+            else:
+                s.private.add(id(tw._inbox))
+                outcome = run_main(s, tw, allobs, obs, nojoin, manual)
         except (S.Outcome, S.ThreadCrashed) as ex:
             outcome = ("failed", str(ex))
         finally:
             s.cleanup()
+        if bad or outcome[0] == "rejected":
+            # invalid parameters: refused when the worker is built (nothing started), or - if a worker was built and started -
+            # everything must still come to an end
+            fails = [] if (bad and outcome[0] == "rejected") else ["a valid parameter set is rejected"] if outcome[0] == "rejected" else \
+                [outcome[1]] if outcome[0] == "failed" else [] if outcome[3] else ["some worker thread did not terminate"]
+            if not fails:
+                return {"status": "ok", "outcome": outcome[0]}
+            return {"status": "cex", "failing": fails[:2], "cex": mk(e.model(), meta, s)}
         want = sig(list(core.split(data, sr=thr.SR, sw=thr.SW, ch=thr.CH, analysis_window=0.1 * spw, validator=(lambda frame: True) if loud else thr.window_validator(data, spw), **skw)))
         fails = judge(outcome, want)
         if printer and not fails:
@@ -164,13 +190,27 @@ def replay_fn(c):
         if c.get("printer"):
             W.print = lambda *a, **k: printed.append(" ".join(str(x) for x in a))
             allobs.append(W.PrintWorker("{id} {start} {end}", "%S"))
-        tw = W.TokenizerWorker(reader, allobs, logger=RecLogger() if c.get("log") else None, validator=val, **skw)
-        s.private.add(id(tw._inbox))
-        outcome = run_main(s, tw, allobs, obs, bool(c.get("nojoin")))
+        skw_ = dict(skw, min_dur=skw["max_dur"] * 2) if c.get("bad") else skw
+        try:
+            tw = W.TokenizerWorker(reader, allobs, logger=RecLogger() if c.get("log") else None, validator=val, **skw_)
+        except ValueError:
+            tw = None
+        if tw is None:
+            outcome = ("rejected",)
+        else:
+            s.private.add(id(tw._inbox))
+            outcome = run_main(s, tw, allobs, obs, bool(c.get("nojoin")), bool(c.get("manual")))
     except (S.Outcome, S.ThreadCrashed) as ex:
         outcome = ("failed", str(ex))
     finally:
         s.cleanup()
+    if c.get("bad") or outcome[0] == "rejected":
+        if c.get("bad") and outcome[0] == "rejected":
+            return []
+        why = "a valid parameter set is rejected" if outcome[0] == "rejected" else outcome[1] if outcome[0] == "failed" else None if outcome[3] else "some worker thread did not terminate"
+        if why is None:
+            return []
+        return [("C12: workers built with invalid parameters do not come to an end", "min_dur > max_dur, %d observer(s), schedule %s: %s" % (c["obs"], compact(c["schedule"]), why))]
     want = sig(list(core.split(data, sr=thr.SR, sw=thr.SW, ch=thr.CH, analysis_window=0.1 * spw, validator=(lambda frame: True) if loud else thr.concrete_validator(data, c["valid"], spw), **skw)))
     fails = judge(outcome, want)
     if c.get("printer") and not fails:
@@ -211,8 +251,9 @@ def run(rep):
     for cf in cfgs:
         hn = "sched[K=%d,obs=%d,pre=%d,to=%d%s%s%s%s%s%s]" % (cf["K"], cf["obs"], cf["pre"], cf["to"], ",logger" if cf.get("log") else "", ",PrintWorker" if cf.get("printer") else "",
                                                             ",start-is-a-scheduling-point" if cf.get("onstart") else "", ",flags=%s" % (cf["flags"],) if cf.get("flags") else "",
-                                                            ",2-sample windows with a partial last one" if cf.get("spw", 1) > 1 else "", ",main thread returns without joining" if cf.get("nojoin") else "") + (",every window a detection" if cf.get("loud") else "")
+                                                            ",2-sample windows with a partial last one" if cf.get("spw", 1) > 1 else "", ",main thread returns without joining" if cf.get("nojoin") else "") + (",every window a detection" if cf.get("loud") else "") + (",min_dur > max_dur" if cf.get("bad") else "") + (",tokenizer started before the observers" if cf.get("manual") else "")
         ex = explore(harness(L, cf["K"], cf["obs"], cf["pre"], cf["to"], cf.get("log", False), cf.get("printer", False), cf.get("onstart", False),
-                             tuple(cf.get("flags", (False, False))), cf.get("spw", 1), cf.get("nojoin", False), cf.get("loud", False)), max_decisions=3000, path_wall_s=30)
+                             tuple(cf.get("flags", (False, False))), cf.get("spw", 1), cf.get("nojoin", False), cf.get("loud", False), cf.get("bad", False), cf.get("manual", False)),
+                     max_decisions=3000, path_wall_s=30)
         rep.add_exploration(hn, ex, bounds=cf)
         tok.handle_cex(rep, hn, ex, replay_fn)
